@@ -46,24 +46,29 @@ const HIST_KINDS: [&str; 8] = [
     "succeeded",
 ];
 
-/// The life-cycle scenario set shared by C02 / C05 / C08 (and monitored by C01, C16).
+/// The life-cycle scenario set shared by C02 / C05 / C08 (and monitored by C01, C06, C16).
 fn life_jobs(props: &[&'static str], thorough: bool, read_faults: bool) -> Vec<Job> {
     let mut v = Vec::new();
-    let d = if thorough { 4 } else { 3 };
-    let tune = |mut c: WCfg| {
-        if thorough {
-            c.max_crashes = 2;
-            c.max_faults = 2;
-            c.read_faults = read_faults;
-        }
+    let rf = |mut c: WCfg| {
+        c.read_faults = read_faults && thorough;
         c
     };
-    v.push(w(tune(scen::s_life("S-life/1htlc", false, false, false)), props, d, true));
-    v.push(w(tune(scen::s_life("S-life/2htlc", true, false, false)), props, d, true));
-    v.push(w(tune(scen::s_life("S-life/1htlc+retry", false, false, true)), props, d.min(3), true));
-    v.push(w(tune(scen::s_life("S-life/2htlc+extra", true, true, false)), props, d.min(3), true));
-    if thorough {
-        v.push(w(tune(scen::s_life("S-life/2htlc+retry", true, false, true)), props, 3, true));
+    if !thorough {
+        v.push(w(scen::s_life("S-life/1htlc", false, false, false), props, 3, true));
+        v.push(w(scen::s_life("S-life/2htlc", true, false, false), props, 3, true));
+        v.push(w(scen::s_life("S-life/1htlc+retry", false, false, true), props, 3, true));
+        v.push(w(scen::s_life("S-life/2htlc+extra", true, true, false), props, 3, true));
+    } else {
+        // one level deeper on the two core scenarios, read faults everywhere, two crashes / two faults at level 3
+        v.push(w(rf(scen::s_life("S-life/1htlc", false, false, false)), props, 4, true));
+        v.push(w(rf(scen::s_life("S-life/2htlc", true, false, false)), props, 4, true));
+        v.push(w(rf(scen::s_life("S-life/1htlc+retry", false, false, true)), props, 3, true));
+        v.push(w(rf(scen::s_life("S-life/2htlc+extra", true, true, false)), props, 3, true));
+        v.push(w(rf(scen::s_life("S-life/2htlc+retry", true, false, true)), props, 3, true));
+        let mut c = scen::s_life("S-life/1htlc/2crashes+2faults", false, false, false);
+        c.max_crashes = 2;
+        c.max_faults = 2;
+        v.push(w(rf(c), props, 3, true));
     }
     for k in HIST_KINDS {
         for age in if thorough { vec![0u64, 59, 61, 1_000_000] } else { vec![0u64, 61] } {
@@ -71,7 +76,7 @@ fn life_jobs(props: &[&'static str], thorough: bool, read_faults: bool) -> Vec<J
                 if two && !thorough && k != "pending-pendingpart" {
                     continue;
                 }
-                v.push(w(tune(scen::s_hist(k, age, two)), props, if thorough { 3 } else { 2 }, false));
+                v.push(w(rf(scen::s_hist(k, age, two)), props, if thorough && age == 0 { 3 } else { 2 }, false));
             }
         }
     }
@@ -109,10 +114,7 @@ pub fn jobs(id: &str, thorough: bool) -> Vec<Job> {
         }
         "C06" => {
             for mut c in scen::s_many() {
-                if thorough {
-                    c.read_faults = true;
-                    c.max_faults = 2;
-                }
+                c.read_faults = thorough;
                 v.push(w(c, &["C06"], if thorough { 3 } else { 2 }, true));
             }
             for j in life_jobs(&["C06"], thorough, true).into_iter().take(if thorough { 100 } else { 3 }) {
@@ -133,10 +135,6 @@ pub fn jobs(id: &str, thorough: bool) -> Vec<Job> {
             for (name, two, retry) in [("S-life/1htlc/probe", false, false), ("S-life/2htlc/probe", true, false)] {
                 let mut c = scen::s_life(name, two, false, retry);
                 c.probe = true;
-                if thorough {
-                    c.max_crashes = 2;
-                    c.max_faults = 2;
-                }
                 v.push(w(c, &["C09"], if thorough { 3 } else { 2 }, true));
             }
             for k in HIST_KINDS {
